@@ -29,7 +29,7 @@ TIERS = {
     # mc: configurations model-checked; shapes_per_kind: how the generated shapes are spread over entry point kinds;
     # extra_random: seeded random scripts on top; deadline_ms: "left hanging" deadline of the harness
     "quick": dict(mc=["MC_DirectConn_q"], tcp_conns=96, udp_scripts=12, random_conns=0, deadline_ms=5000, workers=8),
-    "thorough": dict(mc=["MC_DirectConn"], tcp_conns=None, udp_scripts=None, random_conns=1500, deadline_ms=5000, workers=10),
+    "thorough": dict(mc=["MC_DirectConn"], tcp_conns=None, udp_scripts=None, random_conns=5000, deadline_ms=5000, workers=10),
 }
 NEG_TCP = {"lose": "Inv_Complete", "gap": "Inv_Prefix", "dup": "Inv_Prefix", "invent": "Inv_Prefix",
            "nofin": "Inv_HalfClose", "killother": "Inv_HalfClose", "hang": "Inv_Closed"}
@@ -190,7 +190,8 @@ def concretise(shape, entry, dims, rng, tier, k):
 def concretise_udp(u, dims, rng, sid):
     sz = dims["udp"]
     pick = lambda a, i: (sz["empty"] if a == 0 else sz["small"] if a == 1 else sz["large"])[i % len(sz["empty"] if a == 0 else sz["small"] if a == 1 else sz["large"])]
-    clients = [dict(dgrams=[pick(a, sid + 3 * k + j) for j, a in enumerate(prof)]) for k, prof in enumerate(u["clients"])]
+    clients = [dict(dgrams=[dict(idle=True) if a < 0 else pick(a, sid + 3 * k + j) for j, a in enumerate(prof)])
+               for k, prof in enumerate(u["clients"])]
     replies = [pick(a, sid + 7 + j) for j, a in enumerate(u["replies"])]
     return dict(ev="script", id=sid, proto="udp", mode=u["mode"], assoc=u["assoc"], clients=clients, replies=replies)
 
@@ -231,10 +232,15 @@ def build_scripts(shapes, ushapes, dims, tier, seed, T):
         i += n
         scripts.append(dict(ev="script", id=sid, proto="tcp",
                             conns=[concretise(s, e, dims, rng, tier, sid * 3 + j) for j, (s, e) in enumerate(group)]))
-    us = list(ushapes)
+    is_idle = lambda u: any(a < 0 for prof in u["clients"] for a in prof)
+    idle = [u for u in ushapes if is_idle(u)]
+    us = [u for u in ushapes if not is_idle(u)]
+    if not idle:
+        raise ToolError("vacuous generation: no UDP shape with an idle period")
     if T["udp_scripts"] is not None:
-        # quick: both modes, shared and own associations, 1..3 clients
+        # quick: both modes, shared and own associations, 1..3 clients; ONE exchange with an idle period (10 s of real time)
         rng.shuffle(us)
+        idle = [sorted(idle, key=lambda u: (len(u["clients"]), u["mode"] != ["udp", "socks5"][int(seed) % 2]))[0]]
         chosen, seen = [], set()
         for u in us:
             key = (u["mode"], u["assoc"], len(u["clients"]))
@@ -247,7 +253,7 @@ def build_scripts(shapes, ushapes, dims, tier, seed, T):
             if u not in chosen:
                 chosen.append(u)
         us = chosen
-    for u in us:
+    for u in us + idle:
         sid += 1
         scripts.append(concretise_udp(u, dims, rng, sid))
     return scripts
@@ -369,9 +375,13 @@ def self_test(work, accepted_recs):
     def clone(r):
         return json.loads(json.dumps(r))
     # octets lost before a clean end-of-stream
+    def graceful(q):  # half-close, end-of-stream seen, only then the close: nothing was aborted on this side
+        names = [e["ev"] for e in q]
+        return "hc" in names and "eof" in names and "close" in names and names.index("eof") < names.index("close") \
+            and "reset" not in names and "timeout" not in names
     for r in tcp:
         idx = [i for i, e in enumerate(r["C"]) if e["ev"] == "recv" and e["b"] - e["a"] >= 2]
-        if idx and any(e["ev"] == "eof" for e in r["C"]) and not any(e["ev"] == "reset" for e in r["C"] + r["T"]):
+        if idx and graceful(r["C"]) and graceful(r["T"]):
             m = clone(r)
             m["C"][idx[-1]]["b"] -= 1
             muts.append(("tcp_bytes_lost", m, {"tcp_bytes_lost"}))
@@ -528,9 +538,8 @@ def check(prop, tier, seed, replay):
                 if it["s"] not in seen and len(seen) < MAX_REPLAY_SCRIPTS and it["s"] in script_of:
                     seen.add(it["s"])
                     text.append(json.dumps(script_of[it["s"]], separators=(",", ":")) + "\n")
-            for it, _ in its[:MAX_REPLAY_SCRIPTS]:
-                for evs in it["eps"].values():
-                    text += [json.dumps(e, separators=(",", ":")) + "\n" for e in evs]
+            # the replay file holds the scripts only (ports and timings differ from run to run: the observed logs are in
+            # the note next to it), so the same finding is saved under the same name every time
             path = vlib.save_replay(prop, re.sub(r"[^A-Za-z0-9_]+", "_", sig), text, note="\n".join(note))
             violations.append((path, sig, len(its)))
             log("\n".join(note[:60]))
@@ -584,6 +593,10 @@ def check(prop, tier, seed, replay):
                 executed_connections_by_feature=dict(sorted(feats.items())),
                 self_test=st,
                 notes={n: sum(1 for _, x in notes if x == n) for n in sorted({x for _, x in notes})},
+                note_samples={n: [dict(script=script_of[items[ln - 1]["s"]], connection=items[ln - 1]["c"],
+                                       logs={ep: [{k: v for k, v in e.items() if k not in ("sfx", "s", "c", "e")} for e in evs[:12]]
+                                             for ep, evs in items[ln - 1]["eps"].items()})
+                                  for ln, x in notes if x == n][:1] for n in sorted({x for _, x in notes})},
                 rejected_by_signature=rej_summary, known_findings_met=known_met, exhaustive=False,
                 explanation="TLC model-checks the oracle (spec/DirectConn.tla) on every pair of endpoint programs over an ideal "
                             "direct connection and over broken ones, and generates the scenario scripts (spec/MC_DirectConn.tla); "
@@ -621,7 +634,13 @@ def check(prop, tier, seed, replay):
         if notes:
             cnt = collections.Counter(x for _, x in notes)
             for n, c in sorted(cnt.items()):
-                log(f"[note] {n}: {c} exchange(s) (not part of the verdict)")
+                log(f"[note] {n}: {c} connection(s) / exchange(s) (not part of the verdict)")
+            # an observation that is rare and timing dependent is shown with its logs, so that it can be followed up
+            for ln, n in notes:
+                if n == "write_stalled_after_peer_closed":
+                    it = items[ln - 1]
+                    log(f"[note] {n}: script {it['s']} connection {it['c']}: " + json.dumps(script_of[it["s"]]["conns"][it["c"] - 1], sort_keys=True))
+                    log(show_events(it, 16))
         if violations:
             for path, sig, n in violations:
                 print(f"VIOLATION property={prop} replay={path}", flush=True)
